@@ -366,7 +366,7 @@ func (pp *c15ProfilePairs) add(what string, saved, loaded *userProfile) {
 	pp.idx = append(pp.idx, q[1:len(q)-1])
 }
 
-// appended to CasesC15.v; the names of Model/Profile.v stay inside the module
+// the case file CasesC15p.v; the names of Model/Profile.v stay inside the module
 func (pp *c15ProfilePairs) coq() string {
 	var sb strings.Builder
 	sb.WriteString("Require KM.Model.Profile.\nModule C15P.\nImport KM.Model.Profile.\nLocal Open Scope N_scope.\n")
@@ -1702,7 +1702,10 @@ func TestVerif_C15(t *testing.T) {
 	sb.WriteString("Definition c15_violating := Eval vm_compute in violating_cases cases.\nPrint c15_violating.\n")
 	sb.WriteString("Definition c15_history_mismatches := Eval vm_compute in mismatches (fun c => negb (history_ok c)) cases.\nPrint c15_history_mismatches.\n")
 	sb.WriteString("Definition c15_handler_mismatches := Eval vm_compute in mismatches (fun c => negb (handler_ok c)) hcases.\nPrint c15_handler_mismatches.\n")
-	sb.WriteString(ppairs.coq())
+	// a file of its own: lib/checks/c15.py compiles it while CasesC15.v is being evaluated
+	if err := ioutil.WriteFile(filepath.Join(verifOut(), "CasesC15p.v"), []byte(coqCaseHeader+ppairs.coq()), 0644); err != nil {
+		t.Fatal(err)
+	}
 	ioutil.WriteFile(filepath.Join(verifOut(), "CasesC15p.idx"), []byte(strings.Join(ppairs.idx, "\n")+"\n"), 0644)
 	res.Extra["profile_pairs"] = len(ppairs.terms)
 	if err := ioutil.WriteFile(filepath.Join(verifOut(), "CasesC15.v"), []byte(sb.String()), 0644); err != nil {
